@@ -43,7 +43,7 @@ OWN_META_REFS = {
     6: ["http://json-schema.org/draft-06/schema#", "http://json-schema.org/draft-06/schema#/definitions/nonNegativeInteger"],
     7: ["http://json-schema.org/draft-07/schema#", "http://json-schema.org/draft-07/schema"],
 }
-W = jsonvals.W + ["ipv4", "regex", "date", -0.0, 5e-324, 2 ** 53 + 1, -10 ** 400,
+W = jsonvals.W + ["ipv4", "regex", "date", -0.0, 5e-324, 2 ** 53 + 1, -10 ** 400, "%s", "{0}", ["%d", "{}"], {"%s": {}, "{a}": {}},
                   {"a": {"$ref": "#"}}, [{"$ref": "#"}], {"$ref": "#"}, {"a": {"items": True}}, "^a", "(", "a{99999999999}",
                   "http://["]
 GROUPS = [("items", "additionalItems"), ("properties", "additionalProperties"),
@@ -65,7 +65,9 @@ def uplus(tier):
     u = [None, True, False, 0, 1, -1, 1.5, 1.0, 2 ** 53 + 1, HUGE, -HUGE, 1e308, 5e-324, -0.0,
          -int("9" * 400), "", "a", "ab", "\U0001F600", [], [1], [1, 1], [1, "a"], [[], {}], [1, 2, 3],
          {}, {"a": 1}, {"a": 1, "b": 2}, {"b": []}, {"a": {"a": 1}}, {"": 0}, [HUGE, 1.5], {"a": HUGE},
-         deep(10), [True, 1, 1.0], {"a": None, "b": "x"}]
+         deep(10), [True, 1, 1.0], {"a": None, "b": "x"},
+         # characters that mean something to %-formatting, str.format and reprs
+         "100%", "%s %(a)s %d", "{0} {a} {", "\\ ' \" \n", {"50%": 1, "{x}": 2, "%(k)s": 3}, ["%", "{}"]]
     if tier == "thorough":
         u += [2, 0.5, 3, "é", "aa", [0], ["a", "a"], [None], [{"a": 1}], {"ab": 0, "b": 1}, {"a": [1, "a"]},
               [[1], [True]], 1e-320, float(2 ** 53), {"a": {}, "b": {}, "ab": {}}, deep(12),
@@ -282,22 +284,31 @@ def site(exc):
 ENTRY = ("is_valid", "iter_errors", "validate", "module_validate", "iter_errors+FormatChecker")
 
 
+def render(e, depth=0):
+    """A reported error can be shown: str / repr / unicode message / json_path / paths are total too."""
+    str(e), repr(e), e.message, e.json_path, list(e.absolute_path), list(e.absolute_schema_path)
+    if depth < 3:
+        for c in e.context:
+            render(c, depth + 1)
+
+
 def execute(d, S, x, entry):
     cls = _e1.CLS[d]
     if entry == "is_valid":
         cls(S).is_valid(x)
     elif entry == "iter_errors":
-        list(cls(S).iter_errors(x))
+        for e in list(cls(S).iter_errors(x)):
+            render(e)
     elif entry == "validate":
         try:
             cls(S).validate(x)
-        except exceptions.ValidationError:
-            pass
+        except exceptions.ValidationError as e:
+            render(e)
     elif entry == "module_validate":
         try:
             jsonschema.validate(x, S, cls=cls)
-        except exceptions.ValidationError:
-            pass
+        except exceptions.ValidationError as e:
+            render(e)
     else:
         list(cls(S, format_checker=FormatChecker()).iter_errors(x))
 
@@ -639,6 +650,9 @@ def plan(ctx):
                  "non-trivial = every execution (each is a distinct accepted-schema/instance/entry-point triple)"),
         "bounds": dict(sizes, W=len(W), uplus=len(U), tier=ctx.tier),
         "assumptions": ["watchdog of 5 s per execution stands for 'hangs'",
+                        "every error obtained through iter_errors / validate / jsonschema.validate is also rendered "
+                        "(str, repr, message, json_path, absolute paths, context recursively): reporting an error "
+                        "includes being able to show it",
                         "patterns that do not compile in `re` and non-string $ref are outside the property's domain"],
     }
 
